@@ -19,20 +19,36 @@ func VerifC12Set() {
 	req := &gnmi.SetRequest{}
 	// mode 0 ("string"): one element, no key, name of up to namelen symbolic bytes, prefix without elements;
 	// mode 1 ("shape"): prefix with 0..1 elements, 0..elems path elements, names of <= 1 byte, optional key
+	// mode 2 ("model"): the operation names a node of the model (leaf, key leaf, list entry, container), so that the value
+	// conversion, the key check and the change construction are reached with every value alternative
 	maxElems, nameLen, withKey, prefixElems := 1, verifrt.Param("namelen"), false, 0
-	if verifrt.Fork("mode", 2) == 1 {
+	mode := verifrt.Fork("mode", 3)
+	if mode == 1 {
 		maxElems, nameLen, withKey, prefixElems = verifrt.Param("elems"), 1, true, verifrt.Param("prefixelems")
 	}
 	if !verifrt.NondetBool("prefix.absent") {
 		req.Prefix = &gnmi.Path{Target: vGenTarget("prefix.target"), Elem: vGenElems("prefix", prefixElems, 1, false)}
 	}
-	switch verifrt.Fork("opkind", 3) {
-	case 0:
-		req.Delete = []*gnmi.Path{{Target: vGenTarget("del.target"), Elem: vGenElems("del", maxElems, nameLen, withKey)}}
-	case 1:
-		req.Replace = []*gnmi.Update{{Path: vGenPath("rep", maxElems, nameLen, withKey), Val: vGenValue("rep.val")}}
-	case 2:
-		req.Update = []*gnmi.Update{{Path: vGenPath("upd", maxElems, nameLen, withKey), Val: vGenValue("upd.val")}}
+	opkind := verifrt.Fork("opkind", 3)
+	if mode == 2 {
+		p := &gnmi.Path{Target: vGenTarget("op.target"), Elem: vModelElems(verifrt.Fork("op.path", 6))}
+		switch opkind {
+		case 0:
+			req.Delete = []*gnmi.Path{p}
+		case 1:
+			req.Replace = []*gnmi.Update{{Path: p, Val: vGenValue("rep.val")}}
+		case 2:
+			req.Update = []*gnmi.Update{{Path: p, Val: vGenValue("upd.val")}}
+		}
+	} else {
+		switch opkind {
+		case 0:
+			req.Delete = []*gnmi.Path{{Target: vGenTarget("del.target"), Elem: vGenElems("del", maxElems, nameLen, withKey)}}
+		case 1:
+			req.Replace = []*gnmi.Update{{Path: vGenPath("rep", maxElems, nameLen, withKey), Val: vGenValue("rep.val")}}
+		case 2:
+			req.Update = []*gnmi.Update{{Path: vGenPath("upd", maxElems, nameLen, withKey), Val: vGenValue("upd.val")}}
+		}
 	}
 	req.Extension = vGenExtensions("ext")
 	// the controllers complete the transaction: either the first event already shows it APPLIED, or COMMITTED first
